@@ -8,6 +8,7 @@ import WV.Proofs.C12_Inv
 import WV.Proofs.C12_E2E
 import WV.Proofs.C12_Select
 import WV.Gen.Skel
+import WV.Gen.Flags
 
 /-!
 C12 property theorems — Dilation L2 framing / encryption / encoding is lossless and rejects
@@ -374,6 +375,29 @@ theorem record_before_kcm_kills_connection (cfg : L2Cfg) (hN : cfg.noise.Ideal) 
   refine ⟨body, { u with rcd := .want_message, rxNonce := n1 }, hpf, ?_, rfl, rfl, hd⟩
   rw [l2Token_record cfg u body pt n1 r hr ho hp]
   cases r <;> first | exact absurd rfl hk | simp [hd, DCP.table]
+
+/-! ## what the model takes from the source as given -/
+
+/-- The model carries `Open.subprotocol` as the UTF-8 bytes of the `str` (`Rec.opn … sub`) and appends /
+    slices them unchanged; that is faithful only if `encode_record` emits exactly
+    `r.subprotocol.encode("utf8")` and `parse_record` reads it back with `str(plaintext[9:], "utf8")`, with
+    no normalisation (`util.to_bytes`, `unicodedata`) or any other call touching the name.  Flags
+    extracted by `ast` on every run. -/
+theorem subprotocol_is_plain_utf8 :
+    Flags.encode_record_subprotocol_plain_utf8 = true ∧ Flags.parse_record_subprotocol_plain_utf8 = true := by
+  decide
+
+/-- Every theorem here is about ONE connection with a Noise session of its own (`L2St.up.rxNonce`,
+    `sendRecord`'s nonce): that is the code only if every candidate `DilatedConnectionProtocol` is given a
+    fresh Noise object — `Connector.build_protocol` calls `build_noise()` itself, configures that local and
+    hands it to the protocol, and the Connector keeps no Noise object on `self` (a shared one is reset by
+    every later candidate's `start_handshake()`). -/
+theorem one_noise_session_per_connection :
+    Flags.build_protocol_fresh_noise_per_protocol = true ∧
+    Skel.skeleton "Connector.build_protocol" =
+      [("-", "build_noise"), ("-", "noise.set_psks"), ("if", "noise.set_as_initiator"),
+       ("else", "noise.set_as_responder"), ("-", "DilatedConnectionProtocol")] := by
+  decide
 
 /-! ## end to end -/
 
